@@ -435,7 +435,7 @@ func (v *Verifier) runCase(p *packages.Package, fc *FuncContract, decl *ast.Func
 	// vacuity: the precondition must be satisfiable
 	v.obligs = append(v.obligs, &Oblig{Name: v.fnName + "#vacuity:requires" + v.caseSuffix(), Class: "vacuity", Func: v.fnName, PC: append([]*Term(nil), s.pc...), Goal: TFalse, MustSat: true, Desc: "precondition and type invariants are satisfiable", Mode: v.mode, Props: fc.Props})
 
-	if fc.Flags["trusted"] {
+	if fc.Flags["trusted"] || fc.Flags["assumed"] {
 		return
 	}
 	// freeze the entry heaps: snapshot so that old() sees entry values
